@@ -115,7 +115,7 @@ def apply_op(lang, text, op):
     raise ValueError(k)
 
 
-BYTE_KINDS = ["latin1_identifier", "latin1_comment", "lone_continuation", "nul", "bom", "utf16", "every_high_byte", "c1_string", "all_bytes_tail"]
+BYTE_KINDS = ["latin1_identifier", "latin1_comment", "lone_continuation", "nul", "bom", "utf16", "every_high_byte", "c1_string", "all_bytes_tail", "utf16_cut", "utf16_surrogate", "cr_endings", "lone_cr", "crcrlf"]
 
 
 def apply_bytes(lang, text, kind):
@@ -134,6 +134,20 @@ def apply_bytes(lang, text, kind):
         return b"\xef\xbb\xbf" + text.encode("utf-8")
     if kind == "utf16":
         return text.encode("utf-16")
+    if kind == "utf16_cut":        # a UTF-16 file (byte order mark first) cut in the middle of a code unit
+        b = text.encode("utf-16")
+        return b[: max(3, (len(b) // 2) | 1)]
+    if kind == "utf16_surrogate":  # byte order mark, then a lone low surrogate among the code units
+        b = text.encode("utf-16")
+        return b[:2] + b"\x00\xdc" + b[2:]
+    if kind == "cr_endings":       # classic Mac line endings: every line break is a bare carriage return
+        return text.replace("\n", "\r").encode("utf-8")
+    if kind == "lone_cr":          # one stray carriage return in an LF file, before the second half
+        b = text.encode("utf-8")
+        cut = b.find(b"\n", len(b) // 2) + 1
+        return b[:cut] + b"int stray;\r" + b[cut:]
+    if kind == "crcrlf":           # the double-conversion artefact \r\r\n
+        return text.replace("\n", "\r\r\n").encode("utf-8")
     if kind == "every_high_byte":  # each of 0x80..0xFF once, in a comment: no 8-bit codec with holes survives this
         return cm.encode() + b" " + bytes(range(0x80, 0x100)) + b"\n" + text.encode("utf-8")
     if kind == "c1_string":  # the C1 control range inside a string literal in the middle of the text
